@@ -184,13 +184,45 @@ func init() {
 			}
 			groups = append(groups, kg)
 		}
+		// .keyvalue() after a filter whose own .keyvalue() continuation fails
+		// (suppressed) on an earlier element: ids must stay stable
+		kvm := methodNode("keyvalue")
+		val := wire.Node{K: "key", S: wire.Bytes("value")}
+		zero := wire.Int(0)
+		failing := func(m string) wire.Node {
+			p := wire.Node{K: "bin", Op: "gt", L: []wire.Node{{K: "cur"}, kvm, val, methodNode(m)}, R: []wire.Node{{K: "num", V: &zero}}}
+			return wire.Node{K: "filter", P: &p}
+		}
+		exq := func() wire.Node {
+			p := wire.Node{K: "un", Op: "exists", X: []wire.Node{{K: "cur"}, kvm, val, methodNode("integer")}}
+			return wire.Node{K: "filter", P: &p}
+		}
+		kvDocs := []wire.Value{
+			wire.Arr(wire.Obj("a", wire.StrV("x")), wire.Obj("b", wire.Float(1), "c", wire.Float(2))),
+			wire.Arr(wire.Obj("b", wire.Float(1)), wire.Obj("a", wire.StrV("x")), wire.Obj("c", wire.Float(3))),
+			wire.Arr(wire.Obj("a", wire.Arr()), wire.Obj("a", wire.Float(2), "b", wire.StrV("y")), wire.Obj("k", wire.Float(5))),
+		}
+		for _, d := range kvDocs {
+			for _, f := range []wire.Node{failing("integer"), failing("double"), exq()} {
+				for _, lax := range []bool{true, false} {
+					p := wire.Path{Lax: lax, Chain: []wire.Node{{K: "root"}, {K: "anyarr"}, f, kvm}}
+					kg, err := kvGroup(p, d)
+					if err != nil {
+						rc.infra("%v", err)
+						return
+					}
+					kg.Kind = "C16kvstable"
+					groups = append(groups, kg)
+				}
+			}
+		}
 		for i := range groups {
 			groups[i].ID = i + 1
 			groups[i].Names = []string{}
 		}
 		rc.cov("groups", map[string]any{"string_roundtrip_and_keyvalue": len(groups)})
 		rc.groupFamily(groups, func(g Group) (Group, error) {
-			if g.Kind == "C16kv" {
+			if g.Kind == "C16kv" || g.Kind == "C16kvstable" {
 				return kvGroup(g.Runs[0].Path, g.Runs[0].Doc)
 			}
 			return rerunGroup(g)
